@@ -166,9 +166,13 @@ def assumptions_of(prop, log):
     return rc == 0, closed, sorted(set(axioms)), out
 
 
-def audit_sources():
+def audit_sources(prop=None):
     bad = []
-    for p in glob.glob(os.path.join(COQ, "theories", "**", "*.v"), recursive=True):
+    files = glob.glob(os.path.join(COQ, "theories", "**", "*.v"), recursive=True)
+    if prop is not None:
+        dirs = {"theories/Base"} | {os.path.dirname(t) for t in prop["coq_targets"]} | set(prop.get("audit_dirs", []))
+        files = [f for f in files if os.path.dirname(os.path.relpath(f, COQ)) in dirs]
+    for p in files:
         for i, line in enumerate(open(p, errors="replace")):
             code = re.sub(r"\(\*.*?\*\)", "", line)
             if FORBIDDEN.search(code):
@@ -334,7 +338,7 @@ def run_check(prop, tier, seed):
     gen = regenerate(prop, log)
     try:
         # 2. proofs
-        forbidden = audit_sources()
+        forbidden = audit_sources(prop)
         ok_build, build_out = coq_build(prop["coq_targets"], log)
         obligations = theorems_in(os.path.join(COQ, prop["properties_file"]))
         discharged = 0
